@@ -222,7 +222,42 @@ func vh_C09_wrapper() {
 	})
 }
 
+// Every evaluation runs with ITS done channel: the root frame takes the
+// interpreter's current done channel at each run, and frames created from it
+// inherit it (a stale channel from an earlier evaluation would never fire).
+func vh_C09_done() {
+	vhResetClock()
+	vhStopAt = -1
+	i := vhNewInterp()
+	nEarlier := vConcretizeInt(vNondetInt("earlierEvals"), 0, 2)
+	for k := 0; k < nEarlier; k++ {
+		i.done = make(chan struct{})
+		vhLaterEval(i, nil)
+	}
+	i.done = make(chan struct{}) // what EvalWithContext does for the evaluation under test
+	cur := reflect.ValueOf(i.done)
+	vReach("C09.done")
+	vhLaterEval(i, func(f *frame) {
+		vAssert("C09.done-propagates", f.done.Chan == cur && f.done.Dir == reflect.SelectRecv)
+		child := newFrame(f, 0, f.runid())
+		vAssert("C09.done-propagates", child.done.Chan == cur)
+		cl := f.clone()
+		vAssert("C09.done-propagates", cl.done.Chan == cur)
+	})
+	// and through (*Interpreter).run for init functions / main
+	in := vhNode(i, 0)
+	in.exec = func(f *frame) bltn {
+		vAssert("C09.done-propagates", f.done.Chan == cur)
+		return nil
+	}
+	root := &node{interp: i}
+	root.start = root
+	root.exec = func(*frame) bltn { return nil }
+	i.Execute(&Program{pkgName: "main", root: root, init: []*node{in}})
+}
+
 var vhRegistry = map[string]func(){
+	"vh_C09_done": vh_C09_done,
 	"vh_C09_gate": vh_C09_gate, "vh_C09_execute": vh_C09_execute,
 	"vh_C09_wrapper": vh_C09_wrapper, "vh_C09_block": vh_C09_block, "vh_C10_closure": vh_C10_closure, "vh_C10_wrapper": vh_C10_wrapper, "vh_C10_named": vh_C10_named,
 }
